@@ -1,8 +1,24 @@
 /-
   Tie of the TRANSLATED IPv4Filter methods (Glb/Generated/TrFilter.lean, rewritten from
   /repo/util/netutil/filter.go on every run) to the hand model Glb/Model/Filter.lean that the C11
-  theorems are about.  The code keeps 32 separate maps, the model one association list of
-  `(ones, key)` pairs, so the tie is a simulation relation `CRel`, not an equality of states.
+  theorems are about.  The code keeps 32 separate maps (`ipMaps[ones-1][key]`), the model one
+  association list of `(ones, key)` pairs in insertion order, so the tie is a SIMULATION relation
+  `CRel c s` between the Go receiver `c : C` (five fields) and the model state `s`, not an equality.
+
+    init_rel                  : the zero-value Go struct is related to `Filter.init`
+    Contains_sim              : CRel c s → Tr.Contains c ip = .ok (Filter.contains s ip), EVERY byte string ip
+    Remove_sim / Add_sim      : CRel c s, len ip = 4, 1 ≤ n ≤ 32 → the call returns `.ok (c', nil error)`
+                                with CRel c' (removeCore s … / addCore 256 s …)   (never panics; the
+                                list→maps migration of `Add` is related to the model's `migrate`)
+    *_invalid / *_zero        : the two early exits (any receiver, no CRel needed)
+    step_sim, run_sim         : any sequence of byte-level operations from the initial state
+    C11_translated            : afterwards Tr.Contains = Filter.contains (model run) for every ip
+    C11_translated_spec/_not4 : … composed with Props/C11: Tr.Contains answers membership in the
+                                prefix-set specification `specRun` of the accepted operations.
+
+  Loops: `Contains` uses `loop_eq` (the result is a function of the state); the loops of `Remove`
+  and of the migration in `Add` use a Hoare rule (`loop_inv_P`, from `loop_inv`) with relational
+  invariants `RemInv`, `ClrInv`, `MigInv`.  Lock calls are outside the translation (Props/C12b).
 -/
 import Glb.Go.Lemmas
 import Glb.Go.LemmasJsonString
@@ -269,7 +285,7 @@ theorem tmd_succ {α} (l : List α) (g : α → α) (n : Nat) (hn : n < l.length
   simp only [Option.toList, List.map_append, List.map_cons, List.map_nil, List.set_cons_zero,
     List.append_assoc, List.cons_append, List.nil_append]
 
-theorem set_of_getElem? {α} (X : List α) (i : Nat) (v : α) (h : X[i]? = some v) : X.set i v = X := by
+theorem set_of_getElemOpt {α} (X : List α) (i : Nat) (v : α) (h : X[i]? = some v) : X.set i v = X := by
   obtain ⟨hlt, rfl⟩ := List.getElem?_eq_some_iff.1 h
   exact List.set_getElem_self _
 
@@ -390,7 +406,7 @@ theorem Remove_sim (c : C) (s : St) (h : CRel c s) (ipb : Bytes) (hl : ipb.lengt
           simp only [hcode, Bool.false_eq_true, if_false]
           refine ⟨⟨i + 1, by simp, by omega, hLlen, hLent, ?_⟩, by simp; omega⟩
           show List.map entry (List.take N L) = _
-          rw [hS, hrm, set_of_getElem? _ _ _ hX]
+          rw [hS, hrm, set_of_getElemOpt _ _ _ hX]
       · have hlt' : ¬ (i : Int) < (N : Int) := by omega
         simp [hlt']
     · exact ⟨0, rfl, by omega, h.listLen, h.entryLen, by simp [hlist]⟩
@@ -752,5 +768,185 @@ theorem Add_zero (c : C) (ipb : Bytes) (hl : ipb.length = 4) :
     simp [hl]
   simp only [hc1, Bool.false_eq_true, if_false, beq_self_eq_true, if_true]
   rfl
+
+/-! ### composition: any sequence of byte-level operations -/
+
+open Glb.C11 (Op)
+
+/-- the receiver after a call, and whether `ErrInvalidIPv4CIDR` was returned -/
+def ofTuple (t : Bool × BitVec 32 × Int × List (List (BitVec 32)) × List (List (BitVec 32 × Bool)) × Bool) :
+    C × Bool :=
+  (⟨t.1, t.2.1, t.2.2.1, t.2.2.2.1, t.2.2.2.2.1⟩, t.2.2.2.2.2)
+
+theorem ofTuple_tuple (c : C) (b : Bool) : ofTuple (c.tuple b) = (c, b) := rfl
+
+/-- one byte-level operation (`cidr.IP`, `cidr.Mask`) through the TRANSLATED methods;
+    `ones, bits := cidr.Mask.Size()` is the model's `maskSize` -/
+def trStep (c : C) : Op → M (C × Bool)
+  | .add ip mask =>
+    ofTuple <$> Glb.Tr.Filter.Add c.matchAll c.mode c.index c.ipList c.ipMaps ip
+      ((maskSize mask).1 : Int) ((maskSize mask).2 : Int)
+  | .remove ip mask =>
+    ofTuple <$> Glb.Tr.Filter.Remove c.matchAll c.mode c.index c.ipList c.ipMaps ip
+      ((maskSize mask).1 : Int) ((maskSize mask).2 : Int)
+
+/-- run of a list of operations through the translated code -/
+def trRunFrom (c : C) : List Op → M C
+  | [] => .ok c
+  | op :: ops => trStep c op >>= fun r => trRunFrom r.1 ops
+
+def trRun (ops : List Op) : M C := trRunFrom cinit ops
+
+/-- the model's run of the same operations -/
+def modelRunFrom (s : St) (ops : List Op) : St := ops.foldl (fun s op => (Glb.C11.step 256 s op).1) s
+
+def modelRun (ops : List Op) : St := modelRunFrom init ops
+
+theorem CRel_matchAll (c : C) (s : St) (h : CRel c s) (b : Bool) :
+    CRel { c with matchAll := b } { s with matchAll := b } :=
+  ⟨rfl, h.mode, h.listLen, h.entryLen, h.idx0, h.idx1, h.mapsLen, h.list, h.maps,
+    ⟨h.wf.list, h.wf.maps⟩⟩
+
+/-- one operation: the translated method does not panic, reports an error exactly when the model
+    rejects the arguments, and the new states are related -/
+theorem step_sim (c : C) (s : St) (h : CRel c s) (op : Op) :
+    ∃ c', trStep c op = .ok (c', !(Glb.C11.step 256 s op).2) ∧ CRel c' (Glb.C11.step 256 s op).1 := by
+  cases op with
+  | add ip mask =>
+    simp only [trStep, Glb.C11.step, Glb.Filter.add, validate]
+    generalize maskSize mask = ms
+    obtain ⟨ones, bits⟩ := ms
+    dsimp only
+    by_cases hbad : bits ≠ 32 ∨ ones > 32 ∨ ip.length ≠ 4
+    · rw [if_pos hbad, Add_invalid c ip _ _ (by omega)]
+      exact ⟨c, rfl, h⟩
+    · rw [if_neg hbad]
+      have hb : bits = 32 := by omega
+      have hl : ip.length = 4 := by omega
+      subst hb
+      by_cases h0 : ones = 0
+      · subst h0
+        rw [if_pos rfl]
+        exact ⟨_, by rw [show ((0 : Nat) : Int) = 0 from rfl, show ((32 : Nat) : Int) = 32 from rfl,
+          Add_zero c ip hl]; rfl, CRel_matchAll c s h true⟩
+      · rw [if_neg h0]
+        obtain ⟨c', hc', hrel⟩ := Add_sim c s h ip hl ones (by omega) (by omega)
+        exact ⟨c', by rw [show ((32 : Nat) : Int) = 32 from rfl, hc']; rfl, hrel⟩
+  | remove ip mask =>
+    simp only [trStep, Glb.C11.step, Glb.Filter.remove, validate]
+    generalize maskSize mask = ms
+    obtain ⟨ones, bits⟩ := ms
+    dsimp only
+    by_cases hbad : bits ≠ 32 ∨ ones > 32 ∨ ip.length ≠ 4
+    · rw [if_pos hbad, Remove_invalid c ip _ _ (by omega)]
+      exact ⟨c, rfl, h⟩
+    · rw [if_neg hbad]
+      have hb : bits = 32 := by omega
+      have hl : ip.length = 4 := by omega
+      subst hb
+      by_cases h0 : ones = 0
+      · subst h0
+        rw [if_pos rfl]
+        exact ⟨_, by rw [show ((0 : Nat) : Int) = 0 from rfl, show ((32 : Nat) : Int) = 32 from rfl,
+          Remove_zero c ip hl]; rfl, CRel_matchAll c s h false⟩
+      · rw [if_neg h0]
+        obtain ⟨c', hc', hrel⟩ := Remove_sim c s h ip hl ones (by omega) (by omega)
+        exact ⟨c', by rw [show ((32 : Nat) : Int) = 32 from rfl, hc']; rfl, hrel⟩
+
+theorem run_sim_from (ops : List Op) : ∀ (c : C) (s : St), CRel c s →
+    ∃ c', trRunFrom c ops = .ok c' ∧ CRel c' (modelRunFrom s ops) := by
+  induction ops with
+  | nil => intro c s h; exact ⟨c, rfl, h⟩
+  | cons op ops ih =>
+    intro c s h
+    obtain ⟨c1, h1, hrel1⟩ := step_sim c s h op
+    obtain ⟨c2, h2, hrel2⟩ := ih c1 _ hrel1
+    refine ⟨c2, ?_, hrel2⟩
+    simp only [trRunFrom, h1, ok_bind, h2]
+
+/-- **the translated `Add`/`Remove` never panic** on any sequence of byte-level operations from the
+    initial state, and the final Go state is related to the model's final state -/
+theorem run_sim (ops : List Op) :
+    ∃ c', trRun ops = .ok c' ∧ CRel c' (modelRun ops) :=
+  run_sim_from ops cinit init init_rel
+
+/-- **C11 for the translated code (observable form)**: after any operation sequence the translated
+    `Contains` returns exactly the model's `contains` of the model's state, for every byte string -/
+theorem C11_translated (ops : List Op) (ip : Bytes) :
+    ∃ c', trRun ops = .ok c' ∧
+      Glb.Tr.Filter.Contains c'.matchAll c'.mode c'.index c'.ipList c'.ipMaps ip
+        = .ok (Glb.Filter.contains (modelRun ops) ip) := by
+  obtain ⟨c', h1, hrel⟩ := run_sim ops
+  exact ⟨c', h1, Contains_sim c' _ hrel ip⟩
+
+/-! ### composition with the C11 theorems: translated code against the prefix-set specification -/
+
+open Glb.C11 (decode specMem specRun crun cstep containsAddr)
+
+theorem modelRunFrom_decode (ops : List Op) : ∀ s : St,
+    modelRunFrom s ops = (ops.filterMap decode).foldl (cstep 256) s := by
+  induction ops with
+  | nil => intro s; rfl
+  | cons op ops ih =>
+    intro s
+    have hd := Glb.C11.step_decode 256 s op
+    simp only [modelRunFrom, List.foldl_cons] at ih ⊢
+    rw [ih]
+    cases hdec : decode op with
+    | none => simp only [hdec] at hd; simp [hdec, hd]
+    | some co => simp only [hdec] at hd; simp [hdec, hd]
+
+theorem modelRun_crun (ops : List Op) : modelRun ops = crun 256 (ops.filterMap decode) :=
+  modelRunFrom_decode ops init
+
+/-- **C11, end to end for the translated code.**  Run any sequence of byte-level `Add`/`Remove`
+    calls through the translated methods from the initial state: no call panics, and afterwards the
+    translated `Contains(ip)`, for every `ip` that `net.IP.To4` accepts (4-byte, or 16-byte
+    IPv4-in-IPv6), answers `true` exactly when the address lies in one of the prefixes added and not
+    since removed (`specRun` of the accepted operations, rejected ones being skipped by `decode`). -/
+theorem C11_translated_spec (ops : List Op) (ip ip4 : Bytes) (h4 : Glb.Filter.to4 ip = some ip4) :
+    ∃ c' r, trRun ops = .ok c' ∧
+      Glb.Tr.Filter.Contains c'.matchAll c'.mode c'.index c'.ipList c'.ipMaps ip = .ok r ∧
+      (r = true ↔ specMem (specRun (ops.filterMap decode)) (Glb.Filter.be32 ip4)) := by
+  obtain ⟨c', h1, h2⟩ := C11_translated ops ip
+  refine ⟨c', _, h1, h2, ?_⟩
+  have hlen : ∀ co ∈ ops.filterMap decode, co.len ≤ 32 := by
+    intro co hco
+    obtain ⟨op, _, hop⟩ := List.mem_filterMap.1 hco
+    exact Glb.C11.decode_len op co hop
+  rw [← Glb.C11.filter_refines_prefix_set 256 _ hlen, ← modelRun_crun]
+  simp only [Glb.Filter.contains, h4, containsAddr]
+  cases (modelRun ops).matchAll <;> simp
+
+/-- the `matchAll` flag of the model stands for the prefix `0.0.0.0/0` of the specification -/
+theorem matchAll_iff (ops : List Glb.C11.COp) (hlen : ∀ op ∈ ops, op.len ≤ 32) :
+    (crun 256 ops).matchAll = true ↔ ((0 : Addr), 0) ∈ specRun ops := by
+  obtain ⟨hwf, hrel⟩ := Glb.C11.rel_run 256 ops hlen
+  rw [← hrel]
+  have hx : ((0 : Addr), 0) ∉ absCore (crun 256 ops) := by
+    intro hx
+    unfold absCore at hx
+    by_cases hmm : (crun 256 ops).mapsMode
+    · simp [hmm] at hx; obtain ⟨p, q, hpq, _, rfl⟩ := hx; have := hwf.maps _ hpq; simp at this
+    · simp [hmm] at hx
+  simp only [Glb.Filter.abs, List.mem_append]
+  cases (crun 256 ops).matchAll
+  · simpa using hx
+  · simp
+
+/-- an address that `To4` rejects is matched only by `0.0.0.0/0` (the `matchAll` flag) -/
+theorem C11_translated_not4 (ops : List Op) (ip : Bytes) (h4 : Glb.Filter.to4 ip = none) :
+    ∃ c' r, trRun ops = .ok c' ∧
+      Glb.Tr.Filter.Contains c'.matchAll c'.mode c'.index c'.ipList c'.ipMaps ip = .ok r ∧
+      (r = true ↔ ((0 : Addr), 0) ∈ specRun (ops.filterMap decode)) := by
+  obtain ⟨c', h1, h2⟩ := C11_translated ops ip
+  refine ⟨c', _, h1, h2, ?_⟩
+  have hlen : ∀ co ∈ ops.filterMap decode, co.len ≤ 32 := by
+    intro co hco
+    obtain ⟨op, _, hop⟩ := List.mem_filterMap.1 hco
+    exact Glb.C11.decode_len op co hop
+  rw [← matchAll_iff _ hlen, ← modelRun_crun]
+  simp only [Glb.Filter.contains, h4]
+  cases (modelRun ops).matchAll <;> simp
 
 end Glb.Tie.TrFilter
